@@ -311,7 +311,10 @@ impl Directive {
             Directive::If | Directive::ElIf => {
                 if let DirectiveOps::OpList(values) = &opts {
                     if let Some(Operand::E(expr)) = values.first() {
-                        let value = expr.run(&context.common_context)?;
+                        let value = match expr.run(&context.common_context) {
+                            Ok(value) => value,
+                            Err(e) => bail!("{}, {}", e, point),
+                        };
                         if value == 0 {
                             next_item = NextItem::EndIf;
                         }
